@@ -1,5 +1,5 @@
 From Coq Require Import String Ascii List Bool Arith ZArith.
-Require Import PyStr PyInt Sexp Xml M_C09 M_C08 R_C08 Ns Table M_Parse M_ParseText.
+Require Import PyStr PyInt Sexp Xml M_C09 M_C08 R_C08 Ns Table M_Parse M_ParseText M_Iter.
 Import ListNotations.
 
 Definition d_ref_elem (x : sexp) : option ref_elem :=
@@ -38,6 +38,13 @@ Definition e_parsed (p : parsed) : sexp :=
        e_list (fun r => let n := normalize_node lk r in Lst [e_onat (nn_id n); e_onat (nn_parent n); e_onat (nn_datatype n); e_onat (nn_methoddecl n)]) (p_nodes p);
        e_list (fun t => let '(a, b, c) := normalize_ref lk t in Lst [e_onat a; e_onat b; e_onat c]) (p_refs p)].
 
+Definition d_ekind (x : sexp) : option ekind :=
+  obind (d_str x) (fun s =>
+    if str_eqb s (lit "UANodeSet") then Some KNodeSet else if str_eqb s (lit "Uri") then Some KUri else if str_eqb s (lit "NamespaceUris") then Some KNsUris
+    else if str_eqb s (lit "Model") then Some KModel else if str_eqb s (lit "RequiredModel") then Some KReqModel else if str_eqb s (lit "Alias") then Some KAlias
+    else if str_eqb s (lit "node") then Some KNode else None).
+Definition d_event (x : sexp) : option (event unit) :=
+  match x with Lst [e; k] => obind (d_bool e) (fun e => omap (fun k => {| ev_end := e; ev_kind := k; ev_elem := tt |}) (d_ekind k)) | _ => None end.
 Definition run_parse (cmd : str) (args : list sexp) : option sexp :=
   if str_eqb cmd (lit "parse_text_files") then
     match args with
@@ -47,6 +54,8 @@ Definition run_parse (cmd : str) (args : list sexp) : option sexp :=
     match args with
     | [e; c; d] => obind (d_ext e) (fun e => obind (d_list d_str c) (fun c => omap (fun d => e_res e_parsed (parse_files e c d)) (d_list d_doc d)))
     | _ => None end
+  else if str_eqb cmd (lit "iter_batches") then
+    match args with [b; evs] => obind (d_nat b) (fun b => omap (fun evs => e_list e_nat (map (@length unit) (batches_of b evs))) (d_list d_event evs)) | _ => None end
   else if str_eqb cmd (lit "ns_list_of_dict") then
     match args with [d] => omap (fun d => e_list e_str (namespace_list_of_dict d)) (d_list (d_pair d_nat d_str) d) | _ => None end
   else None.
